@@ -10,4 +10,5 @@ def check(ctx, rep):
     # an unbound local in a handler or clean-up path raises UnboundLocalError, which no OSError handler absorbs
     dar.da_rule(ctx, rep, ['parso/cache.py'])
     cache.cache_6_7(ctx, rep)
+    cache.cache_8(ctx, rep)      # no memory-mapped cache file: truncation by a concurrent writer would be SIGBUS, not an exception
     rep.note('Not decided: "returns the tree of the current content"; the in-use clause of clean-up (atime based).')
